@@ -53,7 +53,7 @@ def generate(rng, tier) -> dict:
             ops.insert(j, {"k": "side_" + kind, "v": rng.choice([fold_dm, fold_dm, fold_dm + 1.0] if kind == "dm" else [fold_p, fold_p, ps[1]])})
     return {"nints": nints, "nbands": nbands, "nbins": nbins, "nchans_per_band": rng.choice([1, 2, 4]),
             "layout": rng.choice(["C", "C", "C", "T", "F", "slice", "C", "readonly"]), "header_dm": rng.choice([0.0, 0.0, 35.0, fold_dm]), "nsamples": 3600000 if long_obs else 100000,
-            "fold_dm": fold_dm, "fold_period": fold_p, "ops": ops}
+            "fold_dm": fold_dm, "fold_period": fold_p, "ops": ops, "data": rng.choice(["arange", "arange", "zero-sum"])}
 
 
 def fixup(sc):
@@ -79,6 +79,11 @@ def make_cube(sc, ctx, layout="C"):
                                           "nsamples": int(sc.get("nsamples", 100000)), "nbits": 32, "dm": float(sc.get("header_dm", 0.0))})
     ni, nb, nbin = sc["nints"], sc["nbands"], sc["nbins"]
     data = np.arange(ni * nb * nbin, dtype=np.float32).reshape(ni, nb, nbin)
+    if sc.get("data") == "zero-sum":
+        # baseline-subtracted profiles: all-distinct values whose sum over phase is exactly 0.0 in float32
+        base = np.arange(nbin, dtype=np.float32) - np.float32((nbin - 1) / 2.0)
+        scale = (1 + np.arange(ni * nb, dtype=np.float32)).reshape(ni, nb, 1)
+        data = (base[None, None, :] * scale).astype(np.float32)
     pristine = data.copy()  # returned as the reference: never shares memory with the cube
     if layout == "T":
         arr = np.array(data.transpose(1, 0, 2), order="C", copy=True).transpose(1, 0, 2)
@@ -142,6 +147,8 @@ def execute(sc, ctx) -> None:
     twin, _ = make_cube(sc, ctx, "C")  # same values, C-contiguous, same history: the memory layout must not matter
     if layout != "C":
         ctx.probe("non-contiguous-cube")
+    if sc.get("data") == "zero-sum":
+        ctx.probe("profiles-summing-to-exactly-zero")
     if sc.get("header_dm", 0.0) != sc["fold_dm"]:
         ctx.probe("header-dm-differs-from-folding-dm")
     if cube.dm != sc["fold_dm"] or cube.period != sc["fold_period"]:
